@@ -92,6 +92,37 @@ def body_n2(E, member, cauchy=False):
         _cauchy_obligation(E, g0, H, x0_, sl, su, delta, d, n, 'n2:at-least-cauchy-decrease')
 
 
+ONESYM = {
+    # (g, H, Delta, sl, su, index of the symbolic upper bound, its range): CG reaches the trust-region boundary, the boundary
+    # refinement (alt_trust_step) then rotates against ONE symbolic bound -> univariate queries
+    'alt-upper': ([-1, -1], [[1, 0.25], [0.25, 0.25]], 1, [-100, -100], [100, None], 1, (0.7, 0.8)),
+    'alt-lower': ([1, 1], [[1, 0.25], [0.25, 0.25]], 1, [-100, None], [100, 100], 1, (-0.8, -0.7)),
+    'alt-upper-indefinite': ([-1, -0.5], [[1, 0], [0, -1]], 1, [-100, -100], [100, None], 1, (0.5, 0.6)),
+}
+
+
+def body_onesym(E, member):
+    np = E.np
+    n = 2
+    gc, Hc, dc, slc, suc, j, (lo, hi) = ONESYM[member]
+    g = E.arr([E.const(str(v)) for v in gc], 'f') if E.symbolic else np.array(gc, dtype=float)
+    H = E.arr([[E.const(str(v)) for v in row] for row in Hc], 'f') if E.symbolic else np.array(Hc, dtype=float)
+    delta = E.const(str(dc))
+    xopt = E.arr([0, 0], 'f') if E.symbolic else np.zeros(2)
+    b = E.real('bound', npy=True, lo=lo, hi=hi)
+    sl = E.arr([E.const(str(v)) if v is not None else b for v in slc], 'f') if E.symbolic else np.array([v if v is not None else b for v in slc], dtype=float)
+    su = E.arr([E.const(str(v)) if v is not None else b for v in suc], 'f') if E.symbolic else np.array([v if v is not None else b for v in suc], dtype=float)
+    g0 = g.copy()
+    d, gnew, crvmin = E.get('trsbox')(xopt, g, H, sl, su, delta, use_fortran=False)
+    E.prove(E.all([sl[i] <= d[i] for i in range(n)] + [d[i] <= su[i] for i in range(n)]), '1sym:step-inside-box')
+    E.prove(np.dot(d, d) <= delta * delta * (1 + E.const('1e-8')) * (1 + E.const('1e-8')), '1sym:step-inside-ball')
+    E.prove(_q(E, g0, H, d, n) <= E.const('1e-12'), '1sym:model-not-increased')
+    exp = g0 + np.dot(H, d)
+    E.prove(E.all([E.eq(gnew[i], exp[i], tol=1e-7) if not E.symbolic else
+                   E.all([gnew[i] - exp[i] <= E.const('1e-9'), exp[i] - gnew[i] <= E.const('1e-9')]) for i in range(n)]), '1sym:returned-gradient-is-g+Hd')
+    _cauchy_obligation(E, g0, H, xopt, sl, su, delta, d, n, '1sym:at-least-cauchy-decrease')
+
+
 def body_clip_fp(E):
     """binary64: the step is fl(xnew - xopt) for a point xnew = clip(xopt + d0) that lies in [sl, su] exactly.
     (Monotonicity of rounding, fl(sl - xopt) <= d <= fl(su - xopt), is an IEEE fact neither z3 nor cvc5 decided in 300 s;
@@ -143,6 +174,11 @@ def harnesses(tier, seed):
                           assumptions=["semi-symbolic: concrete model data, symbolic geometry", "real arithmetic (QF_NRA)"],
                           expect=['n2:step-inside-box'], nproc=None, wall_budget=(150 if tier == 'quick' else 1500), expect_exhaustive=False,
                           max_paths=(400 if tier == 'quick' else 5000)))
+    for mname in (['alt-upper', 'alt-lower'] if tier == 'quick' else list(ONESYM.keys())):
+        hs.append(Harness("trsbox[n=2,one-symbolic-bound,%s]" % mname, 'dfverif.checks.c12', 'body_onesym', params=dict(member=mname), cfg=nra(), functions=FUNCS,
+                          bounds="n=2; g, H, Delta, xopt and three bounds concrete, ONE bound symbolic in a range around the value where the boundary refinement is limited by it",
+                          assumptions=["semi-symbolic with one symbol", "real arithmetic (QF_NRA); gnew compared to 1e-9 absolute"],
+                          expect=['1sym:step-inside-box'], nproc=None, wall_budget=(150 if tier == 'quick' else 900), expect_exhaustive=False, max_paths=300))
     hs.append(Harness("clip-binary64", 'dfverif.checks.c12', 'body_clip_fp', params={}, cfg=core.Cfg(fork_queries=True, qtimeout_ms=120000, logic='QF_FP'),
                       functions=['trust_region.d_within_bounds'], bounds="IEEE binary64, one coordinate, |values| <= 1000",
                       assumptions=["finite inputs, sl <= xopt <= su"], expect=['clip:clipped-point-exactly-in-box'], nproc=1, replay=False))
